@@ -53,11 +53,13 @@ attached to fee-bearing (`instantiate`, `IncreaseMemberLimit`) / other messages 
 namespace LP.WlMembers
 open LP
 
+-- Addresses are interned naturals (`LP.Addr = Nat`); this file writes `Nat` so that `omega` sees the order on keys.
+
 /-! ## Kinds and constants -/
 
 inductive Kind where
   | plain | flex | tiered | tieredFlex | immutable
-deriving Repr, DecidableEq, BEq
+deriving Repr, DecidableEq
 
 /-- members carry a `mint_count`; lists are processed in message order (no sort/dedup) -/
 def Kind.isFlex : Kind → Bool
@@ -92,7 +94,7 @@ def PAGE_DEFAULT : Nat := Gen.sg_whitelist_PAGINATION_DEFAULT_LIMIT
 def PAGE_MAX : Nat := Gen.sg_whitelist_PAGINATION_MAX_LIMIT
 
 /-- model of `deps.api.addr_validate` (harness convention: ids ≥ 90000 are rendered as invalid strings) -/
-def validAddr (a : Addr) : Bool := a < 90000
+def validAddr (a : Nat) : Bool := a < 90000
 
 /-! ## Fee arithmetic -/
 
@@ -106,18 +108,20 @@ def creationFee (k : Kind) (limit : Nat) : Nat := tiers limit * k.price
 def upgradeFee (k : Kind) (old new : Nat) : Nat :=
   if tiers new > tiers old then (tiers new - tiers old) * k.price else 0
 
-/-! ## Member maps (one `cw_storage_plus::Map<Addr, _>` / one `(stage, _)` prefix) -/
+/-! ## Member maps (one `cw_storage_plus::Map<Nat, _>` / one `(stage, _)` prefix) -/
 
 /-- `(address, mint_count)`; plain kinds store `true`, modelled as count 0 -/
-abbrev Member := Addr × Nat
+abbrev Member := Nat × Nat
 
-def keys (l : List Member) : List Addr := l.map (·.1)
+def keys (l : List Member) : List Nat := l.map (·.1)
 
 /-- `Map::has` -/
-def hasM (a : Addr) (l : List Member) : Bool := l.any (fun m => m.1 == a)
+def hasM (a : Nat) (l : List Member) : Bool := l.any (fun m => m.1 == a)
 
 /-- `Map::may_load` -/
-def getM (a : Addr) (l : List Member) : Option Nat := (l.find? (fun m => m.1 == a)).map (·.2)
+def getM (a : Nat) : List Member → Option Nat
+  | [] => none
+  | x :: xs => if x.1 = a then some x.2 else getM a xs
 
 /-- `Map::save` (insert in key order, overwrite an existing key) -/
 def saveM (m : Member) : List Member → List Member
@@ -128,14 +132,14 @@ def saveM (m : Member) : List Member → List Member
     else x :: saveM m xs
 
 /-- `Map::remove` -/
-def eraseM (a : Addr) (l : List Member) : List Member := l.filter (fun m => m.1 != a)
+def eraseM (a : Nat) (l : List Member) : List Member := l.filter (fun m => m.1 != a)
 
 /-- `Vec<String>::sort_unstable(); dedup()` on addresses: strictly ascending, no repetition -/
-def insertU (a : Addr) : List Addr → List Addr
+def insertU (a : Nat) : List Nat → List Nat
   | [] => [a]
   | x :: xs => if a < x then a :: x :: xs else if a = x then x :: xs else x :: insertU a xs
 
-def sortDedup (l : List Addr) : List Addr := l.foldr insertU []
+def sortDedup (l : List Nat) : List Nat := l.foldr insertU []
 
 /-- what the handler iterates over: plain kinds sort + dedup the address strings (value `true`),
 flex kinds keep the message order and the mint counts -/
@@ -152,6 +156,12 @@ structure LoopCfg where
   whale : Option Nat
 deriving Repr
 
+/-- `if let Some(whale_cap) = whale_cap { if mint_count > whale_cap { return Err(ExceededWhaleCap) } }` -/
+def whaleExceeded (w : Option Nat) (mintCount : Nat) : Bool :=
+  match w with
+  | some cap => decide (mintCount > cap)
+  | none => false
+
 /-- Loop state: (`config.num_members`, the member map, number of `save`s done = `members_added`). -/
 abbrev LoopSt := Nat × List Member × Nat
 
@@ -161,7 +171,7 @@ def addLoop (cfg : LoopCfg) (limit : Nat) : List Member → LoopSt → Except Er
   | m :: ms, (num, st, added) =>
     if cfg.checkLimit && decide (num ≥ limit) then .error .limit
     else if !validAddr m.1 then .error .invalid
-    else if (match cfg.whale with | some c => decide (m.2 > c) | none => false) then .error .limit
+    else if whaleExceeded cfg.whale m.2 then .error .limit
     else if hasM m.1 st then
       (if cfg.rejectDup then .error .invalid else addLoop cfg limit ms (num, st, added))
     else addLoop cfg limit ms (num + 1, saveM m st, added + 1)
@@ -172,7 +182,7 @@ def saveAll : List Member → List Member → Except Err (List Member)
   | m :: ms, st => if !validAddr m.1 then .error .invalid else saveAll ms (saveM m st)
 
 /-- `execute_remove_members` loop: (`num_members`, map, removed). `num_members -= 1` is checked arithmetic. -/
-def removeLoop : List Addr → LoopSt → Except Err LoopSt
+def removeLoop : List Nat → LoopSt → Except Err LoopSt
   | [], acc => .ok acc
   | a :: as, (num, st, removed) =>
     if !validAddr a then .error .invalid
@@ -204,8 +214,8 @@ deriving Repr, DecidableEq
 structure WL where
   kind : Kind
   /-- `env.contract.address` -/
-  self : Addr
-  admins : List Addr
+  self : Nat
+  admins : List Nat
   /-- `Config.num_members` (immutable: `TOTAL_ADDRESS_COUNT`) -/
   numMembers : Nat
   /-- `Config.member_limit` -/
@@ -225,7 +235,7 @@ structure WL where
   stray : Nat
 deriving Repr
 
-def isAdmin (s : WL) (a : Addr) : Bool := s.admins.contains a
+def isAdmin (s : WL) (a : Nat) : Bool := s.admins.contains a
 
 /-- sum of the stored per-stage map sizes -/
 def stageTotal (ss : List Stage) : Nat := (ss.map (fun g => g.members.length)).sum
@@ -276,12 +286,12 @@ def activeIdx (now : Nat) (ss : List Stage) : Option Nat :=
 
 structure InstMsg where
   /-- `env.contract.address` of the new instance -/
-  self : Addr
+  self : Nat
   now : Nat
   funds : List Coin
   memberLimit : Nat
   whaleCap : Option Nat
-  admins : List Addr
+  admins : List Nat
   /-- flat kinds -/
   start : Nat
   stop : Nat
@@ -394,7 +404,7 @@ inductive Op where
   /-- `AddMembers{to_add, stage_id}` (`stage` is ignored by the flat kinds, whose message has no such field) -/
   | addMembers (sender now tip stage : Nat) (ms : List Member)
   /-- `RemoveMembers{to_remove, stage_id}` -/
-  | removeMembers (sender now tip stage : Nat) (as : List Addr)
+  | removeMembers (sender now tip stage : Nat) (as : List Nat)
   /-- `AddStage{stage, members}` (tiered kinds) -/
   | addStage (sender now tip start stop : Nat) (ms : List Member)
   /-- `RemoveStage{stage_id}` (tiered kinds) -/
@@ -403,8 +413,17 @@ inductive Op where
   | increaseLimit (sender now : Nat) (funds : List Coin) (limit : Nat)
   /-- any message that only touches admins / times (`UpdateStartTime`, `UpdateEndTime`, `UpdateAdmins`, `Freeze`,
   `UpdateStageConfig`, `UpdatePerAddressLimit`): the environment may set them to anything -/
-  | env (admins : List Addr) (start stop : Nat) (times : List (Nat × Nat))
+  | env (admins : List Nat) (start stop : Nat) (times : List (Nat × Nat))
 deriving Repr
+
+/-- native funds attached to a message that charges no fee -/
+def Op.tip : Op → Nat
+  | .addMembers _ _ tip _ _ => tip
+  | .removeMembers _ _ tip _ _ => tip
+  | .addStage _ _ tip _ _ _ => tip
+  | .removeStage _ _ tip _ => tip
+  | .increaseLimit _ _ _ _ => 0
+  | .env _ _ _ _ => 0
 
 /-- funds attached to a message that never looks at them stay in the contract -/
 def tipped (s : WL) (tip : Nat) : WL :=
@@ -432,7 +451,7 @@ def execAddMembers (s : WL) (sender tip stage : Nat) (ms : List Member) : Except
       | .error e => .error e
       | .ok (num, st, _) => .ok (tipped { s with numMembers := num, members := st } tip)
 
-def execRemoveMembers (s : WL) (sender now tip stage : Nat) (as : List Addr) : Except Err WL :=
+def execRemoveMembers (s : WL) (sender now tip stage : Nat) (as : List Nat) : Except Err WL :=
   if !isAdmin s sender then .error .unauthorized
   else if s.kind.isTiered then
     match s.stages[stage]? with
@@ -493,19 +512,18 @@ def execIncreaseLimit (s : WL) (funds : List Coin) (limit : Nat) : Except Err WL
           | .ok bank => .ok { s with memberLimit := limit, bank := bank, feesPaid := s.feesPaid + payment }
 
 /-- one `execute` call; `.error` = the transaction is reverted -/
-def exec (s : WL) : Op → Except Err WL
-  | op =>
-    if s.kind == .immutable then .error .invalid     -- `enum ExecuteMsg {}`: nothing deserialises
-    else match op with
-    | .addMembers sender _ tip stage ms => execAddMembers s sender tip stage ms
-    | .removeMembers sender now tip stage as => execRemoveMembers s sender now tip stage as
-    | .addStage sender now tip start stop ms =>
-      if s.kind.isTiered then execAddStage s sender now tip start stop ms else .error .invalid
-    | .removeStage sender now tip stage =>
-      if s.kind.isTiered then execRemoveStage s sender now tip stage else .error .invalid
-    | .increaseLimit _ _ funds limit => execIncreaseLimit s funds limit
-    | .env admins start stop times =>
-      .ok { s with admins := admins, start := start, stop := stop, stages := setTimes s.stages times }
+def exec (s : WL) (op : Op) : Except Err WL :=
+  if s.kind == .immutable then .error .invalid     -- `enum ExecuteMsg {}`: nothing deserialises
+  else match op with
+  | .addMembers sender _ tip stage ms => execAddMembers s sender tip stage ms
+  | .removeMembers sender now tip stage as => execRemoveMembers s sender now tip stage as
+  | .addStage sender now tip start stop ms =>
+    if s.kind.isTiered then execAddStage s sender now tip start stop ms else .error .invalid
+  | .removeStage sender now tip stage =>
+    if s.kind.isTiered then execRemoveStage s sender now tip stage else .error .invalid
+  | .increaseLimit _ _ funds limit => execIncreaseLimit s funds limit
+  | .env admins start stop times =>
+    .ok { s with admins := admins, start := start, stop := stop, stages := setTimes s.stages times }
 
 /-- transactional step: a failed message leaves the state unchanged -/
 def step (s : WL) (op : Op) : WL := match exec s op with | .ok s' => s' | .error _ => s
@@ -519,14 +537,14 @@ def mapOf (s : WL) (stage : Nat) : List Member :=
   if s.kind.isTiered then (match s.stages[stage]? with | some g => g.members | none => []) else s.members
 
 /-- `query_members(start_after, limit[, stage_id])`; `none` = `addr_validate(start_after)` failed -/
-def queryMembers (s : WL) (stage : Nat) (startAfter : Option Addr) (limit : Option Nat) : Option (List Member) :=
+def queryMembers (s : WL) (stage : Nat) (startAfter : Option Nat) (limit : Option Nat) : Option (List Member) :=
   let lim := min (limit.getD PAGE_DEFAULT) PAGE_MAX
   match startAfter with
   | none => some ((mapOf s stage).take lim)
   | some a => if validAddr a then some (((mapOf s stage).filter (fun m => decide (a < m.1))).take lim) else none
 
 /-- `HasMember{member}` (`none` = query error); immutable: `IncludesAddress` (no validation) -/
-def queryHasMember (s : WL) (now : Nat) (a : Addr) : Option Bool :=
+def queryHasMember (s : WL) (now : Nat) (a : Nat) : Option Bool :=
   if s.kind == .immutable then some (hasM a s.members)
   else if !validAddr a then none
   else if s.kind.isTiered then
@@ -536,7 +554,7 @@ def queryHasMember (s : WL) (now : Nat) (a : Addr) : Option Bool :=
   else some (hasM a s.members)
 
 /-- flex kinds: `Member{member}` → mint count (`none` = query error: invalid, not stored, no active stage) -/
-def queryMember (s : WL) (now : Nat) (a : Addr) : Option Nat :=
+def queryMember (s : WL) (now : Nat) (a : Nat) : Option Nat :=
   if !s.kind.isFlex || !validAddr a then none
   else if s.kind.isTiered then
     match activeIdx now s.stages with
@@ -545,7 +563,7 @@ def queryMember (s : WL) (now : Nat) (a : Addr) : Option Nat :=
   else getM a s.members
 
 /-- tiered kinds: `StageMemberInfo{stage_id, member}.is_member` (`none` = query error) -/
-def queryStageMember (s : WL) (stage : Nat) (a : Addr) : Option Bool :=
+def queryStageMember (s : WL) (stage : Nat) (a : Nat) : Option Bool :=
   if !s.kind.isTiered || !validAddr a then none
   else if s.kind == .tiered && decide (stage ≥ s.stages.length) then none   -- `config.stages[stage_id]` panics
   else some (hasM a (mapOf s stage))
@@ -554,7 +572,7 @@ def queryStageMember (s : WL) (stage : Nat) (a : Addr) : Option Bool :=
 def queryStageCount (s : WL) (stage : Nat) : Option Nat := (s.stages[stage]?).map (·.count)
 
 /-- all pages of the `Members` query with page size `pg`, as a client walks them (`fuel` bounds the walk) -/
-def walkPages (s : WL) (stage : Nat) (pg : Nat) : Nat → Option Addr → List Member → List Member
+def walkPages (s : WL) (stage : Nat) (pg : Nat) : Nat → Option Nat → List Member → List Member
   | 0, _, acc => acc
   | fuel + 1, after, acc =>
     match queryMembers s stage after (some pg) with
